@@ -247,6 +247,28 @@ def is_outer(obj):
     return getattr(obj, 'born', 0) < fam[0].stamp
 
 
+def effect_write(obj):
+    """a callee's contract overwrites array `obj` in place (called by the `effects` of sidecar contracts).  Inside a generic
+    iteration an object allocated BEFORE the loop is shared by all iterations: the write is remembered, and handing such an
+    object to a queue is refused by an obligation (q_put) -- another iteration may overwrite it before the consumer reads it"""
+    c = cur()
+    if is_outer(obj):
+        c.ghost.setdefault('outer_effect_writes', []).append(obj)
+        obj.shared_written = True
+
+
+def shared_written_base(item):
+    """the array (item itself or the array it is a view of) that outlives the iteration and is written inside it, if any"""
+    seen = 0
+    o = item
+    while o is not None and seen < 8:
+        if getattr(o, 'shared_written', False) and is_outer(o):
+            return o
+        o = getattr(o, 'base', None)
+        seen += 1
+    return None
+
+
 def active_levels():
     return list(getattr(cur(), 'family', []))
 
